@@ -133,13 +133,19 @@ Inductive cop := OSet (t k v ttl : Z) (ok : bool) | OGet (t k : Z) (r : option Z
 
 Definition zopt_eqb := option_eqb Z.eqb.
 
+(** Refinement again: the real cache may answer "no entry" at any time (an early
+    miss is no concern of C10); whatever it DOES return must be what the model
+    cache -- built with the instants the Sets RETURNED and probed at the instants
+    the Gets were ISSUED -- still holds.  In particular a Get issued after
+    set-return + ttl must miss. *)
 Fixpoint cache_corr (b : backend) (c : cache Z) (ops : list cop) : bool :=
   match ops with
   | [] => true
   | OSet t k v ttl ok :: r =>
       Bool.eqb ok (match b with Mem => true | Redis => 0 <? millis ttl end) &&
       cache_corr b (cset b t k v ttl c) r
-  | OGet t k o :: r => zopt_eqb (cget b t k c) o && cache_corr b c r
+  | OGet t k None :: r => cache_corr b c r
+  | OGet t k (Some v) :: r => zopt_eqb (cget b t k c) (Some v) && cache_corr b c r
   end.
 
 (** the last successful Set of key [k] among the operations seen so far
